@@ -42,7 +42,9 @@ def missing (what : String) : DecOp := .unrecognised ("database entry lacks " ++
 
 def numberOp (f : FieldDef) (post : Post) : DecOp :=
   match f.bitLength, f.resolution, f.rangeMin, f.rangeMax with
-  | some l, some r, some mn, some mx => .number l f.signed r mn mx post
+  | some l, some r, some mn, some mx =>
+    -- the Offset is passed only by the plain-number branch of the generator (TIME/DATE never carry one)
+    .number l f.signed r mn mx (match post with | .id => f.offset.getD (Lit.ofInt 0) | _ => Lit.ofInt 0) post
   | _, _, _, _ => missing "BitLength/Resolution/RangeMin/RangeMax"
 
 def withLen (f : FieldDef) (k : Nat → DecOp) : DecOp :=
@@ -128,7 +130,7 @@ def encKind (f : FieldDef) (bits : Nat) : EncKind :=
   let t := f.ftype
   if t = "NUMBER" ∨ t = "PGN" then
     match f.resolution with
-    | some r => .number bits f.signed r
+    | some r => .number bits f.signed r (f.offset.getD (Lit.ofInt 0))
     | none => .unrecognised "database entry lacks Resolution"
   else if t = "RESERVED" then .reserved
   else if t = "FLOAT" then .float
